@@ -78,6 +78,17 @@ class Unit:
             else:
                 w = part[1]
                 txt, spans, pos2line = render_with_map(w)
+                if self.probe:
+                    n_dup = 0
+                    for v in [w] + w.subs:
+                        if v.under_contract and getattr(v, 'probe_ok', True) and v.item.body_range():
+                            a = pos2line.off(v.ct[v.lo][2])
+                            b = pos2line.off(v.ct[v.hi][2]) + len(v.ct[v.hi][1])
+                            dup = make_probe(txt[a:b], v.item.name)
+                            w._ins(v.ct[v.hi][3], '\n' + dup + '\n', 'VACUITY::' + v.name())
+                            n_dup += 1
+                    if n_dup:
+                        txt, spans, pos2line = render_with_map(w)
                 for lo, hi, lab in spans:
                     self.label_spans.append((line + lo, line + hi, lab, w.name()))
                 views = [w] + w.subs
@@ -128,6 +139,37 @@ class Unit:
         return p
 
 
+def make_probe(text, name):
+    """A copy of a woven function, renamed, with the extra postcondition `false` (vacuity probe)."""
+    text = re.sub(r'/\*\+K\*/|/\*-K\*/|/\*\+R:\d+\*/|/\*-R\*/', '', text)
+    toks = rustlex.lex(text)
+    ct = rustlex.code(toks)
+    i = 0
+    while not (ct[i][0] == 'id' and ct[i][1] == 'fn' and ct[i + 1][1] == name):
+        i += 1
+    name_tok = ct[i + 1]
+    # header: up to the body's `{` at depth 0
+    depth, j, ens, body = 0, i + 2, None, None
+    while j < len(ct):
+        t = ct[j]
+        if t[0] == 'p' and t[1] in '([':
+            j = rustlex.match_close(ct, j)
+        elif t[0] == 'p' and t[1] == '{':
+            body = t
+            break
+        elif t[0] == 'id' and t[1] == 'ensures' and ens is None:
+            ens = t
+        j += 1
+    edits = [(name_tok[3], '__vacuity_probe')]
+    if ens is not None:
+        edits.append((ens[3], ' false,'))
+    else:
+        edits.append((body[2], ' ensures false, '))
+    for pos, ins in sorted(edits, reverse=True):
+        text = text[:pos] + ins + text[pos:]
+    return text
+
+
 def render_with_map(w):
     """Render and return a source-byte -> rendered-line mapper."""
     txt, spans = w.render()
@@ -162,15 +204,17 @@ def render_with_map(w):
         raise Undecided('internal: token map mismatch for %s' % w.name())
     starts = [t[2] for t in src_toks]
 
-    def pos2line(p):
-        # index of the token starting at or before p
+    def pos2off(p):
+        """Rendered byte offset of the source token that starts at or before source byte p."""
         import bisect
         k = bisect.bisect_right(starts, p) - 1
         if k < 0:
             k = 0
-        if p >= src_toks[k][3] and k + 1 < len(starts) and p > starts[k]:
-            pass
-        return txt.count('\n', 0, orig_positions[k])
+        return orig_positions[k]
+
+    def pos2line(p):
+        return txt.count('\n', 0, pos2off(p))
+    pos2line.off = pos2off
     return txt, spans, pos2line
 
 
@@ -241,7 +285,7 @@ def classify(unit, res):
             continue
         spans = d.get('spans', [])
         labels, origins = [], []
-        fnv = None
+        fnv_best = None
         prim_line = None
         for sp in spans:
             if os.path.basename(sp.get('file_name', '')) != os.path.basename(unit.gen_path):
@@ -249,17 +293,22 @@ def classify(unit, res):
             l0, l1 = sp['line_start'] - 1, sp['line_end'] - 1
             if sp.get('is_primary') and prim_line is None:
                 prim_line = l0
+            splabel = sp.get('label') or ''
+            context_only = splabel.startswith('at the end of the function body') or \
+                splabel.startswith('at this exit') or splabel.startswith('at this loop exit')
             for lo, hi, lab, origin in unit.label_spans:
+                if context_only:
+                    break
                 if not (l1 < lo or l0 > hi):
                     if lab not in labels:
                         labels.append(lab)
                         origins.append(origin)
             for lo, hi, v in unit.fn_spans:
-                if lo <= l0 <= hi and (sp.get('is_primary') or fnv is None):
-                    # innermost function wins
-                    if fnv is None or (hi - lo) < fnv[1] - fnv[0] or sp.get('is_primary'):
-                        if fnv is None or (hi - lo) <= (fnv[1] - fnv[0]) or sp.get('is_primary'):
-                            fnv = (lo, hi, v)
+                if lo <= l0 <= hi and not context_only:
+                    cand = (0 if sp.get('is_primary') else 1, hi - lo, lo, hi, v)
+                    if fnv_best is None or cand[:2] < fnv_best[:2]:
+                        fnv_best = cand
+        fnv = (fnv_best[2], fnv_best[3], fnv_best[4]) if fnv_best else None
         props = set()
         for lab in labels:
             head = lab.split(':')[0]
